@@ -149,6 +149,8 @@ def _l1(H: C.History, worlds: list[dict], total_pcalls: int, base: str, cache: d
 def _judge_worlds(H: C.History, tape: Tape, tier: str, world: World, case: dict, ref: M.Outcome, fw: M.Outcome, base: str, cache: dict, depth: int, sample: dict) -> None:
     total = fw.progress_calls
     in_scope = _l1(H, fw.worlds, total, base, cache, armed=(depth > 0), depth=depth)
+    if any(w["pcall"] in getattr(fw, "finder_calls", ()) for w in in_scope):
+        H.probe("noisy_save_with_active_root_search")
     if depth == 0 and not sample and in_scope:
         w = in_scope[len(in_scope) // 2]
         sample.update({"scenario_atoms": case["scn"]["atoms"], "solver": case["solver"], "crash_world": C.describe_world(w, base), "n_crash_worlds": len(fw.worlds), "autosaves": max(x["save"] for x in fw.worlds)})
